@@ -357,8 +357,16 @@ func runVerifReloadJob(job *lJob, tmp string) *lOut {
 				rec.mu.Lock()
 				cur := rec.current
 				nev := len(rec.events)
+				nsucc := 0
+				for _, ev := range rec.events {
+					if ev.Success {
+						nsucc++
+					}
+				}
 				rec.mu.Unlock()
-				if st.ExpHash != "" && !e.Reject && cur == st.ExpHash {
+				// the success event is emitted after the state has been restored: waiting for it
+				// (not just for Reload) keeps the sample out of the middle of handleChanges
+				if st.ExpHash != "" && !e.Reject && cur == st.ExpHash && nsucc > 0 {
 					st.Converged = true
 					if job.Mode != "burst" || time.Now().After(minWait) {
 						break
